@@ -53,3 +53,13 @@ pub proof fn lemma_count_mono(es: Seq<EnumDef>, k: int, v: Seq<char>)
         assert(es.take(k) =~= es);
     }
 }
+// the names of all enum / struct definitions the back end sees (the keys of GlobalGoEnv::enums() / structs())
+pub uninterp spec fn env_enum_names(g: &GlobalGoEnv) -> Seq<TastIdent>;
+pub uninterp spec fn env_struct_names(g: &GlobalGoEnv) -> Seq<TastIdent>;
+#[verifier::external_body] pub fn goenv_enum_names(g: &GlobalGoEnv) -> (r: Vec<TastIdent>) ensures r@ == env_enum_names(g) { unimplemented!() }
+#[verifier::external_body] pub fn goenv_struct_names(g: &GlobalGoEnv) -> (r: Vec<TastIdent>) ensures r@ == env_struct_names(g) { unimplemented!() }
+// C02 / C19: the variant is named like a type — its bare name would declare that Go type a second time
+pub open spec fn names_a_type(g: &GlobalGoEnv, v: Seq<char>) -> bool {
+    (exists|i: int| 0 <= i < env_enum_names(g).len() && (#[trigger] env_enum_names(g)[i]).0@ == v)
+    || (exists|i: int| 0 <= i < env_struct_names(g).len() && (#[trigger] env_struct_names(g)[i]).0@ == v)
+}
